@@ -10,7 +10,7 @@
 // every sampled input of every run.
 //
 // Correspondence: for every (source type, target) a list of (input bits, observed output) pairs around every
-// boundary + specials + random values is emitted as a Coq case (CPairs); the exhaustive 8-bit (and 16-bit) sweeps
+// boundary + specials + random values is emitted as a Coq case (CPairs); the exhaustive 8-bit and 16-bit sweeps
 // are emitted run-length compressed (CRun) and re-evaluated by the model on EVERY input of the run.
 package main
 
@@ -72,71 +72,99 @@ type (
 )
 
 // all ten conversions of one value; results as 64-bit patterns (signed results sign-extended)
-func all[C safecast.IConvertable](v C) [nTargets]uint64 {
-	return [nTargets]uint64{
-		uint64(int64(safecast.ToInt(v))), uint64(int64(safecast.ToInt8(v))), uint64(int64(safecast.ToInt16(v))),
-		uint64(int64(safecast.ToInt32(v))), uint64(safecast.ToInt64(v)),
-		uint64(safecast.ToUint(v)), uint64(safecast.ToUint8(v)), uint64(safecast.ToUint16(v)),
-		uint64(safecast.ToUint32(v)), safecast.ToUint64(v),
-	}
+func all[C safecast.IConvertable](v C, o *[nTargets]uint64) {
+	o[kInt] = uint64(int64(safecast.ToInt(v)))
+	o[kInt8] = uint64(int64(safecast.ToInt8(v)))
+	o[kInt16] = uint64(int64(safecast.ToInt16(v)))
+	o[kInt32] = uint64(int64(safecast.ToInt32(v)))
+	o[kInt64] = uint64(safecast.ToInt64(v))
+	o[kUint] = uint64(safecast.ToUint(v))
+	o[kUint8] = uint64(safecast.ToUint8(v))
+	o[kUint16] = uint64(safecast.ToUint16(v))
+	o[kUint32] = uint64(safecast.ToUint32(v))
+	o[kUint64] = safecast.ToUint64(v)
 }
 
 // call runs the real library on the value of kind k (named type or not) whose canonical 64-bit pattern is bits:
 // integers sign-/zero-extended, float32/float64 IEEE-754 bits.
-func call(k int, named bool, bits uint64) [nTargets]uint64 {
+func call(k int, named bool, bits uint64, o *[nTargets]uint64) {
 	if named {
 		switch k {
 		case kInt:
-			return all(MyInt(int64(bits)))
+			all(MyInt(int64(bits)), o)
+			return
 		case kInt8:
-			return all(MyInt8(bits))
+			all(MyInt8(bits), o)
+			return
 		case kInt16:
-			return all(MyInt16(bits))
+			all(MyInt16(bits), o)
+			return
 		case kInt32:
-			return all(MyInt32(bits))
+			all(MyInt32(bits), o)
+			return
 		case kInt64:
-			return all(MyInt64(bits))
+			all(MyInt64(bits), o)
+			return
 		case kUint:
-			return all(MyUint(bits))
+			all(MyUint(bits), o)
+			return
 		case kUint8:
-			return all(MyUint8(bits))
+			all(MyUint8(bits), o)
+			return
 		case kUint16:
-			return all(MyUint16(bits))
+			all(MyUint16(bits), o)
+			return
 		case kUint32:
-			return all(MyUint32(bits))
+			all(MyUint32(bits), o)
+			return
 		case kUint64:
-			return all(MyUint64(bits))
+			all(MyUint64(bits), o)
+			return
 		case kFloat32:
-			return all(MyFloat32(math.Float32frombits(uint32(bits))))
+			all(MyFloat32(math.Float32frombits(uint32(bits))), o)
+			return
 		case kFloat64:
-			return all(MyFloat64(math.Float64frombits(bits)))
+			all(MyFloat64(math.Float64frombits(bits)), o)
+			return
 		}
 	}
 	switch k {
 	case kInt:
-		return all(int(int64(bits)))
+		all(int(int64(bits)), o)
+		return
 	case kInt8:
-		return all(int8(bits))
+		all(int8(bits), o)
+		return
 	case kInt16:
-		return all(int16(bits))
+		all(int16(bits), o)
+		return
 	case kInt32:
-		return all(int32(bits))
+		all(int32(bits), o)
+		return
 	case kInt64:
-		return all(int64(bits))
+		all(int64(bits), o)
+		return
 	case kUint:
-		return all(uint(bits))
+		all(uint(bits), o)
+		return
 	case kUint8:
-		return all(uint8(bits))
+		all(uint8(bits), o)
+		return
 	case kUint16:
-		return all(uint16(bits))
+		all(uint16(bits), o)
+		return
 	case kUint32:
-		return all(uint32(bits))
+		all(uint32(bits), o)
+		return
 	case kUint64:
-		return all(bits)
+		all(bits, o)
+		return
 	case kFloat32:
-		return all(math.Float32frombits(uint32(bits)))
+		all(math.Float32frombits(uint32(bits)), o)
+		return
 	case kFloat64:
-		return all(math.Float64frombits(bits))
+		all(math.Float64frombits(bits), o)
+		return
 	}
 	panic("kind")
 }
@@ -147,7 +175,8 @@ func callSafe(k int, named bool, bits uint64) (o [nTargets]uint64, panicked any)
 			panicked = p
 		}
 	}()
-	return call(k, named, bits), nil
+	call(k, named, bits, &o)
+	return o, nil
 }
 
 // ---------- references ----------
@@ -243,8 +272,40 @@ func bigToBits(t int, v *big.Int) uint64 {
 	return v.Uint64()
 }
 
-// fastRef: the same reference in machine arithmetic (used for the bulk sweeps; cross-checked against refClamp).
+// per-target constants of the fast reference
+var (
+	fLo, fHi  [nTargets]float64 // lowest value / first value above the range, as float64 (exact powers of two)
+	sLo, sHi  [nTargets]int64   // range of the signed targets
+	uHi       [nTargets]uint64  // upper bound (all targets)
+	loBits    [nTargets]uint64  // minimum as a 64-bit pattern
+	tgtSigned [nTargets]bool
+)
+
+func init() {
+	for t := 0; t < nTargets; t++ {
+		b := kindBits[t]
+		tgtSigned[t] = isSigned(t)
+		if isSigned(t) {
+			fLo[t], fHi[t] = -math.Ldexp(1, int(b-1)), math.Ldexp(1, int(b-1))
+			sLo[t], sHi[t] = int64(-1)<<(b-1), int64(1)<<(b-1)-1
+			uHi[t] = uint64(sHi[t])
+			loBits[t] = uint64(sLo[t])
+		} else {
+			fLo[t], fHi[t] = 0, math.Ldexp(1, int(b))
+			uHi[t] = math.MaxUint64 >> (64 - b)
+		}
+	}
+}
+
+// fastRef: the same reference in machine arithmetic (used for the bulk sweeps; cross-checked against refClamp on
+// every sampled input).  Float sources: math.Trunc is exact, the bounds are exact powers of two, and the final
+// conversion is applied to an in-range value only (defined by the language).
 func fastRef(k int, bits uint64) (o [nTargets]uint64, nan bool) {
+	nan = fastRefInto(k, bits, &o)
+	return
+}
+
+func fastRefInto(k int, bits uint64, o *[nTargets]uint64) (nan bool) {
 	if isFloat(k) {
 		var f float64
 		if k == kFloat32 {
@@ -253,72 +314,49 @@ func fastRef(k int, bits uint64) (o [nTargets]uint64, nan bool) {
 			f = math.Float64frombits(bits)
 		}
 		if f != f {
-			return o, true
+			return true
 		}
-		tr := math.Trunc(f) // exact
+		tr := math.Trunc(f)
 		for t := 0; t < nTargets; t++ {
-			b := kindBits[t]
-			if isSigned(t) {
-				hi := math.Ldexp(1, int(b-1)) // 2^(b-1), exact
-				switch {
-				case tr < -hi:
-					o[t] = uint64(int64(-1) << (b - 1))
-				case tr >= hi:
-					o[t] = 1<<(b-1) - 1
-				default:
-					o[t] = uint64(int64(tr)) // in range: defined by the language
-				}
-			} else {
-				hi := math.Ldexp(1, int(b))
-				switch {
-				case tr <= 0:
-					o[t] = 0
-				case tr >= hi:
-					o[t] = math.MaxUint64 >> (64 - b)
-				default:
-					o[t] = uint64(tr)
-				}
+			switch {
+			case tr < fLo[t]:
+				o[t] = loBits[t]
+			case tr >= fHi[t]:
+				o[t] = uHi[t]
+			case tgtSigned[t]:
+				o[t] = uint64(int64(tr))
+			case tr <= 0: // -0
+				o[t] = 0
+			default:
+				o[t] = uint64(tr)
 			}
 		}
-		return o, false
+		return false
+	}
+	if isSigned(k) {
+		v := int64(bits)
+		for t := 0; t < nTargets; t++ {
+			switch {
+			case tgtSigned[t] && v < sLo[t]:
+				o[t] = loBits[t]
+			case !tgtSigned[t] && v < 0:
+				o[t] = 0
+			case v > 0 && uint64(v) > uHi[t]:
+				o[t] = uHi[t]
+			default:
+				o[t] = uint64(v)
+			}
+		}
+		return false
 	}
 	for t := 0; t < nTargets; t++ {
-		b := kindBits[t]
-		if isSigned(k) {
-			v := int64(bits)
-			if isSigned(t) {
-				lo, hi := int64(-1)<<(b-1), int64(1)<<(b-1)-1
-				switch {
-				case v < lo:
-					v = lo
-				case v > hi:
-					v = hi
-				}
-				o[t] = uint64(v)
-			} else {
-				hi := uint64(math.MaxUint64) >> (64 - b)
-				switch {
-				case v < 0:
-					o[t] = 0
-				case uint64(v) > hi:
-					o[t] = hi
-				default:
-					o[t] = uint64(v)
-				}
-			}
+		if bits > uHi[t] {
+			o[t] = uHi[t]
 		} else {
-			hi := uint64(math.MaxUint64) >> (64 - b)
-			if isSigned(t) {
-				hi = 1<<(b-1) - 1
-			}
-			if bits > hi {
-				o[t] = hi
-			} else {
-				o[t] = bits
-			}
+			o[t] = bits
 		}
 	}
-	return o, false
+	return false
 }
 
 // ---------- ordering of inputs by value ----------
@@ -399,11 +437,61 @@ func typeName(k int, named bool) string {
 	return kindName[k]
 }
 
+type pendingCase struct {
+	term   string
+	desc   any
+	weight uint64 // estimated cost of evaluating the case in Coq
+}
+
 type checker struct {
 	r       *h.Run
 	mu      sync.Mutex
 	seen    map[string]int
 	samples int
+	pending []pendingCase
+}
+
+func (c *checker) addCase(term string, desc any, weight uint64) {
+	c.pending = append(c.pending, pendingCase{term, desc, weight})
+}
+
+// flushCases hands the cases to h in an order that balances the estimated cost over the shards (files) that
+// h.Finish cuts every ShardSize cases: heaviest first, each into the currently lightest shard that has room.
+func (c *checker) flushCases() {
+	n := len(c.pending)
+	if n == 0 {
+		return
+	}
+	size := c.r.ShardSize
+	shards := (n + size - 1) / size
+	idx := make([]int, n)
+	for i := range idx {
+		idx[i] = i
+	}
+	sort.SliceStable(idx, func(a, b int) bool { return c.pending[idx[a]].weight > c.pending[idx[b]].weight })
+	load := make([]uint64, shards)
+	members := make([][]int, shards)
+	for _, i := range idx {
+		best := -1
+		for s := 0; s < shards; s++ {
+			capacity := size
+			if s == shards-1 {
+				capacity = n - size*(shards-1)
+			}
+			if len(members[s]) < capacity && (best < 0 || load[s] < load[best]) {
+				best = s
+			}
+		}
+		members[best] = append(members[best], i)
+		load[best] += c.pending[i].weight
+	}
+	for s := 0; s < shards; s++ {
+		sort.Ints(members[s])
+		for _, i := range members[s] {
+			c.r.Case(c.pending[i].term, c.pending[i].desc)
+		}
+	}
+	c.pending = nil
 }
 
 // fail records a failure; the message is built lazily and only for the first few failures of a signature
@@ -498,6 +586,7 @@ func boundaries() []*big.Int {
 }
 
 func intSamples(r *h.Run, k int, window int64, nRandom int) []sample {
+	coreRandom := r.N(24, 300)
 	m := map[uint64]bool{} // bits -> core
 	add := func(v *big.Int, core bool) {
 		if bits, ok := representable(k, v); ok {
@@ -506,7 +595,7 @@ func intSamples(r *h.Run, k int, window int64, nRandom int) []sample {
 	}
 	for _, b := range boundaries() {
 		for d := -window; d <= window; d++ {
-			add(new(big.Int).Add(b, big.NewInt(d)), d >= -1 && d <= 1)
+			add(new(big.Int).Add(b, big.NewInt(d)), d >= -2 && d <= 2)
 		}
 	}
 	for e := uint(0); e <= 64; e++ {
@@ -526,7 +615,7 @@ func intSamples(r *h.Run, k int, window int64, nRandom int) []sample {
 		if _, ok := representable(k, v); !ok {
 			v = new(big.Int).SetUint64(x & (1<<(kindBits[k]-1) - 1))
 		}
-		add(v, i < 12)
+		add(v, i < coreRandom)
 	}
 	return sorted(k, m)
 }
@@ -553,7 +642,8 @@ func sorted(k int, m map[uint64]bool) []sample {
 	return out
 }
 
-func floatSamples(r *h.Run, k int, ulps int, nRandom int) []sample {
+func floatSamples(r *h.Run, k int, ulps int, window int64, nRandom int) []sample {
+	coreRandom := r.N(36, 600)
 	m := map[uint64]bool{}
 	w := kindBits[k]
 	mask := uint64(math.MaxUint64) >> (64 - w)
@@ -605,6 +695,16 @@ func floatSamples(r *h.Run, k int, ulps int, nRandom int) []sample {
 			}
 		}
 	}
+	// integral and half-integral values around every boundary (a comparison through a narrower float type, or a
+	// guard that is off by a few units, shows here and not within a few ulps of the boundary)
+	for _, b := range boundaries() {
+		for d := int64(-window); d <= window; d++ {
+			x := new(big.Int).Add(b, big.NewInt(d))
+			f, _ := new(big.Float).SetInt(x).Float64()
+			add(toBits(f), false)
+			add(toBits(f+0.5), false)
+		}
+	}
 	minExp, maxExp := -1074, 1023
 	if k == kFloat32 {
 		minExp, maxExp = -149, 127
@@ -629,19 +729,19 @@ func floatSamples(r *h.Run, k int, ulps int, nRandom int) []sample {
 	for i := 0; i < nRandom; i++ {
 		switch i % 3 {
 		case 0: // any bit pattern (all exponents)
-			add(r.Rng.Uint64(), i < 18)
+			add(r.Rng.Uint64(), i < coreRandom)
 		case 1: // an integer of random magnitude plus a fraction
 			x := float64(r.Rng.Uint64()>>uint(r.Rng.Intn(64))) + r.Rng.Float64()
 			if r.Rng.Intn(2) == 0 {
 				x = -x
 			}
-			add(toBits(x), i < 18)
+			add(toBits(x), i < coreRandom)
 		default: // integral value of random magnitude up to 2^70
 			x := math.Ldexp(float64(r.Rng.Uint64()), r.Rng.Intn(72)-64)
 			if r.Rng.Intn(2) == 0 {
 				x = -x
 			}
-			add(toBits(math.Trunc(x)), i < 18)
+			add(toBits(math.Trunc(x)), i < coreRandom)
 		}
 	}
 	return sorted(k, m)
@@ -714,8 +814,8 @@ func (c *checker) runSamples(k int, named bool, ss []sample, emit bool) {
 				if j > len(pairs[t]) {
 					j = len(pairs[t])
 				}
-				r.Case(fmt.Sprintf("(CPairs %s %s %s %s)", coqKind[k], h.Bool(named), coqKind[t], h.List(pairs[t][i:j])),
-					map[string]any{"source": typeName(k, named), "target": kindName[t], "pairs_input_output": pairs[t][i:j]})
+				c.addCase(fmt.Sprintf("(CPairs %s %s %s %s)", coqKind[k], h.Bool(named), coqKind[t], h.List(pairs[t][i:j])),
+					map[string]any{"source": typeName(k, named), "target": kindName[t], "pairs_input_output": pairs[t][i:j]}, uint64(60*(j-i)))
 			}
 		}
 	}
@@ -735,7 +835,7 @@ type run struct {
 
 func (c *checker) sweep(k int, named bool, from, to uint64, stride uint64, bitsOf func(uint64) uint64, wantRuns bool) [nTargets][]run {
 	var runs [nTargets][]run
-	var prev [nTargets]uint64
+	var prev, o, want [nTargets]uint64
 	havePrev := false
 	var prevBits uint64
 	defer func() {
@@ -750,8 +850,8 @@ func (c *checker) sweep(k int, named bool, from, to uint64, stride uint64, bitsO
 		if isNaN(k, bits) {
 			continue
 		}
-		o := call(k, named, bits)
-		want, _ := fastRef(k, bits)
+		call(k, named, bits, &o)
+		fastRefInto(k, bits, &want)
 		if o != want {
 			for t := 0; t < nTargets; t++ {
 				if o[t] != want[t] {
@@ -813,8 +913,8 @@ func (c *checker) emitRuns(k int, named bool, runs [nTargets][]run) {
 				mode = "(RConst " + zstr(isSigned(t), ru.c) + ")"
 			}
 			lo := zstr(isSigned(k), uint64(ru.lo))
-			c.r.Case(fmt.Sprintf("(CRun %s %s %s %s %d%%N %s)", coqKind[k], h.Bool(named), coqKind[t], lo, ru.n, mode),
-				map[string]any{"source": typeName(k, named), "target": kindName[t], "first_input": lo, "count": ru.n, "outputs": mode})
+			c.addCase(fmt.Sprintf("(CRun %s %s %s %s %d%%N %s)", coqKind[k], h.Bool(named), coqKind[t], lo, ru.n, mode),
+				map[string]any{"source": typeName(k, named), "target": kindName[t], "first_input": lo, "count": ru.n, "outputs": mode}, ru.n)
 			c.r.Distinct(fmt.Sprintf("run/%s/%v/%s/%s", kindName[k], named, kindName[t], lo))
 		}
 	}
@@ -870,7 +970,7 @@ func main() {
 	r.ShardSize = 30
 	c := &checker{r: r}
 	r.Rule("24 source types (12 kinds, plain and named) x 10 targets. Every 8- and 16-bit source value exhaustively; 32-bit sources (int32, uint32, float32): " +
-		"every 4093rd value in the quick tier and every value in the thorough tier; all sources: every value within 2^12 of each range boundary of each target " +
+		"every 4093rd value in the quick tier, every value in the thorough tier, every 61st in a deepened run after a broken tie; all sources: every value within 2^12 of each range boundary of each target " +
 		"(floats: 2^12 next-up/next-down steps around each boundary and boundary+-1, fractions beside them), every power of two and its neighbours, zeros, subnormals, " +
 		"infinities, NaNs, seeded random values of random magnitude. evaluations = (input, target) pairs compared with the reference; " +
 		"distinct_nontrivial counts only the (source type, target, input) triples and sweep runs that were ALSO re-evaluated by the Coq model (correspondence cases).")
@@ -918,7 +1018,7 @@ func main() {
 	for k := 0; k < nKinds; k++ {
 		var ss []sample
 		if isFloat(k) {
-			ss = floatSamples(r, k, 4096, nRandom)
+			ss = floatSamples(r, k, 4096, window, nRandom)
 		} else {
 			ss = intSamples(r, k, window, nRandom)
 		}
@@ -940,7 +1040,8 @@ func main() {
 			runs := c.sweep(k, named, 0, n, 1, bitsOfOrdered(k), emit)
 			r.Evals(int(n) * nTargets)
 			r.CountN(fmt.Sprintf("exhaustive-%d-bit:%s", kindBits[k], srcClass(k, named)), int(n)*nTargets)
-			if emit && (kindBits[k] == 8 || r.Thorough()) {
+			// the model re-evaluates every input of these runs
+			if emit {
 				c.emitRuns(k, named, runs)
 			}
 		}
@@ -955,17 +1056,30 @@ func main() {
 	}
 
 	// 3. 32-bit sources: strided (quick) or exhaustive (thorough / deepened)
-	stride := uint64(r.N(4093, 1))
+	// quick: every 4093rd value; thorough: every value; deepened search after a broken tie: every 61st value
+	// (the deepened run has to finish in seconds; the boundary neighbourhoods above are complete in every mode)
+	stride := uint64(4093)
+	switch {
+	case r.Deep:
+		stride = 61
+	case r.Thorough():
+		stride = 1
+	}
 	for _, k := range []int{kInt32, kUint32, kFloat32} {
 		for _, named := range []bool{false, true} {
-			n := c.sweep32(k, named, stride)
+			st := stride
+			if named && !isFloat(k) && st < 61 {
+				st = 61 // same compiled code (one GC shape) as the plain type, which is swept completely
+			}
+			n := c.sweep32(k, named, st)
 			r.Evals(int(n))
-			r.CountN(fmt.Sprintf("sweep-32-bit-stride-%d:%s", stride, srcClass(k, named)), int(n))
+			r.CountN(fmt.Sprintf("sweep-32-bit-stride-%d:%s", st, srcClass(k, named)), int(n))
 		}
 	}
+	c.flushCases()
 	if stride == 1 {
 		r.Exhaustive(true)
-		r.Note("every value of every 8-, 16- and 32-bit source type was evaluated on all ten targets")
+		r.Note("every value of every 8- and 16-bit source type, of int32, uint32, float32 and of the named float32 type was evaluated on all ten targets (named int32/uint32: every 61st value)")
 	}
 	r.Finish()
 }
